@@ -127,7 +127,8 @@ def job_backprop(family, shape, timeout_q=20.0, max_paths=4000):
 # Layer 2
 
 
-def job_loop(family, shape, gemini, batch_size, solver="adam", mlcl=False, timeout_q=20.0, max_paths=3000, perm=None):
+def job_loop(family, shape, gemini, batch_size, solver="adam", mlcl=False, timeout_q=20.0, max_paths=3000, perm=None, path=False, path_max_paths=4):
+    """path=True: the training loop of the regularisation path (`_path` has its own copy of the step) instead of fit's"""
     loader.install()
     res = {"paths": 0, "queries": 0, "obligations": [], "violations": [], "validated": 0, "witnesses": 0, "samples": []}
     st = {}
@@ -135,16 +136,22 @@ def job_loop(family, shape, gemini, batch_size, solver="adam", mlcl=False, timeo
     def setup():
         core.CTX.strict = True
         core.CTX.merge_sign = True
-        env = cm.FitEnv(family, shape, gemini=gemini, batch_size=batch_size, solver=solver, max_iter=1, perm=perm, mlcl=mlcl)
+        if path:
+            env = cm.PathEnv(family, shape, gemini=gemini, batch_size=batch_size, solver=solver, max_iter=1, perm=perm)
+        else:
+            env = cm.FitEnv(family, shape, gemini=gemini, batch_size=batch_size, solver=solver, max_iter=1, perm=perm, mlcl=mlcl)
         st["env"] = env
         return env
 
     def body(env):
-        env.run_fit()
+        if path:
+            env.run_path()
+        else:
+            env.run_fit()
         return env
 
-    ex = Explorer(max_paths=max_paths)
-    tagbase = f"loop/{family}/{cm.shape_str(shape)}/{gemini}/bs{batch_size}/{solver}{'/mlcl' + (str(mlcl) if isinstance(mlcl, dict) else '') if mlcl else ''}"
+    ex = Explorer(max_paths=(path_max_paths if path else max_paths))     # path: the branches beyond the first few differ only in proximal / early-stopping decisions
+    tagbase = f"{'pathloop' if path else 'loop'}/{family}/{cm.shape_str(shape)}/{gemini}/bs{batch_size}/{solver}{'/mlcl' + (str(mlcl) if isinstance(mlcl, dict) else '') if mlcl else ''}"
     for out, pc, trace in ex.run(body, setup):
         res["paths"] += 1
         tag = f"{tagbase}/path{res['paths']}"
@@ -161,6 +168,8 @@ def job_loop(family, shape, gemini, batch_size, solver="adam", mlcl=False, timeo
             res["witnesses"] += 1
         n = env.n
         exp_steps = 1 if family.startswith("Categorical") else -(-n // (batch_size or n))
+        if path:
+            exp_steps *= 2      # the initial unpenalised fit + one path step
         okc = len(env.steps) == exp_steps
         res["obligations"].append({"name": tag + f"/optimiser steps == ceil(n/batch_size) = {exp_steps}", "verdict": "unsat" if okc else "sat", "how": "syntactic",
                                    "steps": len(env.steps)})
@@ -192,7 +201,7 @@ def job_loop(family, shape, gemini, batch_size, solver="adam", mlcl=False, timeo
                             res["obligations"][-1]["verdict"] = "inconclusive"
         if len(res["samples"]) < 1:
             res["samples"].append({"obligation": tag, "steps": len(env.steps), "batches": [s["rows"] for s in env.steps], "pc_size": len(pc)})
-    if ex.truncated or ex.depth_hits:
+    if (ex.truncated and not path) or ex.depth_hits:
         res["obligations"].append({"name": tagbase + "/exploration", "verdict": "unknown", "how": "path budget exhausted"})
     return res
 
@@ -250,6 +259,14 @@ def jobs(tier):
     # must-link / cannot-link decoration (the extra pairwise terms)
     out.append({"name": "loop/LinearModel/mlcl", "target": "checks.c03:job_loop",
                 "kwargs": dict(family="LinearModel", shape=(3, 1, 2), gemini="mi", batch_size=None, mlcl=True), "timeout": 300 if q else 2400})
+    # the regularisation path has its own copy of the training step
+    out.append({"name": "pathloop/SparseLinearModel/mi/bs2", "target": "checks.c03:job_loop",
+                "kwargs": dict(family="SparseLinearModel", shape=(3, 1, 2), gemini="mi", batch_size=2, path=True, path_max_paths=(4 if q else 16)), "timeout": 300 if q else 2400})
+    out.append({"name": "pathloop/SparseLinearModel/chi2_ova/bsNone", "target": "checks.c03:job_loop",
+                "kwargs": dict(family="SparseLinearModel", shape=(2, 1, 2), gemini="chi2_ova", batch_size=None, path=True, path_max_paths=(4 if q else 16)), "timeout": 300 if q else 2400})
+    if not q:
+        out.append({"name": "pathloop/SparseMLPModel/mi/bsNone", "target": "checks.c03:job_loop",
+                    "kwargs": dict(family="SparseMLPModel", shape=(2, 1, 1, 2), gemini="mi", batch_size=None, path=True), "timeout": 2400})
     # one sample in the same slot of two pairs of one kind: the extra terms must accumulate
     out.append({"name": "loop/LinearModel/mlcl/shared-sample", "target": "checks.c03:job_loop",
                 "kwargs": dict(family="LinearModel", shape=(3, 1, 2), gemini="mi", batch_size=None, mlcl={"ml": [(0, 1), (0, 2)], "cl": []}), "timeout": 300 if q else 2400})
